@@ -787,6 +787,9 @@ func (l *Ledger) payPegRequests(res *BlockResult, h uint32, rates map[int]uint64
 	for id, yield := range pay {
 		r := by[id]
 		used += yield
+		if yield > r.want {
+			res.Probes = append(res.Probes, "peg_request_paid_more_than_it_asked_for(rounding dust)")
+		}
 		if yield == 0 && r.want > 0 {
 			res.Probes = append(res.Probes, "peg_request_with_a_share_that_rounds_to_zero")
 		}
